@@ -178,8 +178,26 @@ def run(ctx):
                 ctx.count("add_charges_default")
                 if a != b:
                     ctx.fail("correspondence", f"c19:add_charges_default:{sid}", f"add_charges disagrees {rq}: real={a} model={b}", case={"sym": sid, "req": rq})
+        # add_charges with explicit signatures and the new_signature left at its documented default (1)
+        if sym.NSYM > 0:
+            dreqs = []
+            for _ in range(40 if quick else 400):
+                m = rng.randint(1, 4)
+                dreqs.append([[rng.choice(wide) for _ in range(m)], [rng.choice((1, -1)) for _ in range(m)], 1])
+            mod = ctx.drv.call({"op": "add_charges_batch", "sym": sid, "cases": dreqs}).get("res", []) if ctx.drv else [None] * len(dreqs)
+            for rq, b in zip(dreqs, mod):
+                a = list(sym.add_charges(*map(tuple, rq[0]), signatures=tuple(rq[1])))
+                ref = list(sym.add_charges(*map(tuple, rq[0]), signatures=tuple(rq[1]), new_signature=1))
+                ctx.count("add_charges_default_new_signature")
+                case = {"sym": sid, "charges": rq[0], "signatures": rq[1], "new_signature": "default"}
+                if a != ref:
+                    ctx.fail("oracle", f"c19:add_charges-default-new-signature:{sid}", f"{sid}: add_charges{tuple(map(tuple, rq[0]))} with signatures={rq[1]} and "
+                             f"new_signature left at its default gives {a}, with new_signature=1 (the documented default) {ref}", case=case, concrete=True)
+                elif b is not None and a != b:
+                    ctx.fail("correspondence", f"c19:add_charges_default:{sid}", f"add_charges disagrees {rq}: real={a} model={b}", case=case)
         # ---------------- Leg ---------------------------------------------------------------
         run_legs(ctx, sid, sym, ms, B)
+        run_legs_noninteger(ctx, sid, sym, ms, B)
         run_fused_legs(ctx, sid, sym, ms, B)
 
 
@@ -277,6 +295,62 @@ def run_legs(ctx, sid, sym, ms, B):
                 kind = ("signature" if "Signature" in err else "dims" if "positive" in err else "count" if "do not match" in err
                         else "range" if "outside" in err else "repeated" if "Repeated" in err else "other")
                 ctx.count(f"leg-errkind:{'agree' if kind == r.get('err') else 'differ'}")
+
+
+def run_legs_noninteger(ctx, sid, sym, ms, B):
+    """Leg arguments that are numbers but not the integers of the domain (oracle only; the model's domain is the integers):
+    a signature, a charge component (at ANY position of the flattened charges) or a dimension with a fractional part must be rejected;
+    the same values given as integral floats (1.0) denote the integer and give the same Leg."""
+    import yastn
+    rng = ctx.rng
+    nsym = sym.NSYM
+    for _ in range(60 if ctx.quick else 1000):
+        ns = rng.randint(1, 4) if nsym > 0 else 1
+        t = []
+        while len(t) < ns:
+            c = [rng.choice(comp_range(m, B)) for m in ms]
+            if c not in t:
+                t.append(c)
+            elif nsym == 0 or rng.random() < 0.2:
+                break
+        ns = len(t) if nsym > 0 else 1
+        D = [rng.randint(1, 4) for _ in range(ns)]
+        s0 = rng.choice((1, -1))
+        base = dict(s=s0, t=[tuple(c) for c in t] if nsym > 0 else (), D=tuple(D))
+        try:
+            ref = yastn.Leg(sym, **base)
+        except Exception:  # noqa: BLE001   (not a valid base leg: nothing to perturb)
+            continue
+        what = rng.choice(["s-frac", "s-float", "D-frac", "D-float"] + (["t-frac", "t-frac", "t-float"] if nsym > 0 else []))
+        args = dict(base)
+        frac = rng.choice((0.5, 0.2, 0.9, -0.5))
+        if what == "s-frac":
+            args["s"] = s0 * rng.choice((1.5, 1.2, 1.9, 0.5, 0.999))
+        elif what == "s-float":
+            args["s"] = float(s0)
+        elif what in ("D-frac", "D-float"):
+            i = rng.randrange(ns)
+            args["D"] = tuple(d + abs(frac) if (j == i and what == "D-frac") else float(d) if j == i else d for j, d in enumerate(D))
+        else:
+            i, j = rng.randrange(ns), rng.randrange(nsym)
+            args["t"] = [tuple((x + frac if what == "t-frac" else float(x)) if (a == i and b == j) else x for b, x in enumerate(c)) for a, c in enumerate(t)]
+            ctx.count(f"leg-nonint:t-position:{'first-len(D)' if i * nsym + j < ns else 'beyond-len(D)'}")
+        should = what.endswith("float")
+        try:
+            leg = yastn.Leg(sym, **args)
+            err = None
+        except Exception as e:  # noqa: BLE001
+            leg, err = None, f"{type(e).__name__}: {e}"
+        case = {"sym": sid, "stratum": what, "s": args["s"], "t": [list(c) for c in args["t"]] if nsym > 0 else [], "D": list(args["D"])}
+        ctx.case(case)
+        ctx.count(f"leg-nonint:{what}:{'accepted' if leg is not None else 'rejected'}")
+        if should != (leg is not None):
+            ctx.fail("oracle", f"c19:leg-accept:{sid}", f"Leg({sid}, s={args['s']}, t={args['t']}, D={args['D']}) "
+                     f"{'accepted as ' + str(leg) if leg is not None else 'rejected (' + str(err) + ')'} but should be {'accepted' if should else 'rejected'} "
+                     f"({what}: signature, charges and dimensions are integers)", case=case, concrete=True)
+        elif leg is not None and not (leg == ref and leg.s == ref.s and leg.t == ref.t and leg.D == ref.D):
+            ctx.fail("oracle", f"c19:leg-sorted:{sid}", f"Leg built from integral floats ({what}) differs from the Leg built from the integers: {leg} vs {ref}",
+                     case=case, concrete=True)
 
 
 def run_fused_legs(ctx, sid, sym, ms, B):
